@@ -8,6 +8,10 @@ Tie        : K7 — a recording subclass of WcMatch vs the Lean walk model on ge
              (abstraction by querying the OS) × flag subsets × file/exclude patterns; the pattern
              decisions handed to the model come from `fnmatch.fnmatch` / `glob.globmatch`, not from
              WcMatch's own matchers.  Full event sequence (polls, hook calls, yields) and get_skipped().
+             K7-patterns — the same cases and pattern-only cases (wilder patterns, bytes root, limit=) with the two
+             pattern STRINGS handed to the model (`wcwalkp` / `wcspecp`: `Cfg.ofPatterns`, Model/WcCompile.lean — WcMatch's
+             flag arithmetic, _compile_wildcard, _compile, compile_pattern, WcRegexp.match inside the model; theorems
+             Properties/C14e2e.lean).
 Search     : plain `WcMatch(...).match()` / `imatch()` / `get_skipped()` vs the specification computed
              (a) in Python from os.scandir + the public-API decisions and (b) by the Lean spec
              (`wcspec`) — a disagreement is a failing input.
@@ -21,7 +25,7 @@ import common
 import k7_wcwalk as K
 from framework import Check, Failing
 
-TARGETS = ['WcModel.Properties.C14']
+TARGETS = ['WcModel.Properties.C14', 'WcModel.Properties.C14e2e']
 
 FIXED = [
     # an excluded directory that is also a symlink; a hidden directory; nested same-named folders
@@ -31,6 +35,8 @@ FIXED = [
     {'A': {'a': None, 'B.txt': None}, 'a': {'A': None}, 'ab': None, 'a.b': {'a.b': None}},
     {},
     {'d': {}, 'e': {'e': {}}},
+    # names that begin with a parenthesis (`!(` / `-(` at the head of an alternative)
+    {'(a)': None, '(a)b': {'(a)': None, 'a': None, '-(a)': None}, 'a': None, '!(a)': None, '(keep)': {'k': None}},
 ]
 
 
@@ -60,6 +66,29 @@ def _cases(ck: Check, R, WM):
         yield tt, per
 
 
+# pattern-only cases of K7-patterns (no oracle): per generated tree
+WILD_PER_TREE_QUICK, WILD_PER_TREE = 3, 8
+WILD_LIMITS = [None] * 10 + [0, 1, 2, 3, 5, -1]
+FIXED_WILD = [
+    # (flags by name, file pattern, exclude pattern): the glue cases named in the task, on every fixed tree
+    (('RECURSIVE',), '', ''), (('RECURSIVE', 'HIDDEN'), '', 'skipme'), (('RECURSIVE',), '*|!a', ''),
+    (('RECURSIVE', 'MINUSNEGATE'), '*|-a', '-skipme'), (('RECURSIVE', 'MINUSNEGATE'), '!a|-b', '!skipme'),
+    (('RECURSIVE', 'FILEPATHNAME', 'MATCHBASE'), '/a|x.b', ''), (('RECURSIVE', 'FILEPATHNAME', 'MATCHBASE'), 'a', ''),
+    (('RECURSIVE', 'FILEPATHNAME'), 'a', ''), (('RECURSIVE', 'FILEPATHNAME', 'GLOBSTAR'), '**/a|!/a/a/**', ''),
+    (('RECURSIVE', 'DIRPATHNAME', 'MATCHBASE'), '', '/skipme'), (('RECURSIVE', 'DIRPATHNAME', 'MATCHBASE'), '', 'skipme'),
+    (('RECURSIVE', 'DIRPATHNAME'), '', 'skipme/'), (('RECURSIVE', 'DIRPATHNAME'), '', 'keep/skipme'),
+    (('RECURSIVE', 'PATHNAME', 'MATCHBASE', 'HIDDEN'), '/.h|f', '!/a'), (('RECURSIVE', 'MATCHBASE'), '/a', '/skipme'),
+    (('RECURSIVE', 'HIDDEN'), '.*', ''), (('RECURSIVE', 'HIDDEN'), '*', ''), (('RECURSIVE',), '.*', '.*'),
+    (('RECURSIVE', 'IGNORECASE'), 'a*|B*', 'SKIPME'), (('RECURSIVE', 'CASE'), 'a*|B*', 'SKIPME'),
+    (('RECURSIVE', 'IGNORECASE', 'CASE'), 'A', 'A'), (('RECURSIVE', 'BRACE'), '{a,b}|!{b,f}', '{skipme,A}'),
+    (('RECURSIVE', 'EXTMATCH'), '!(a)', '!(skipme|a)'), (('RECURSIVE', 'EXTMATCH', 'MINUSNEGATE'), '-(a)|*', ''),
+    (('RECURSIVE', 'EXTMATCH', 'MINUSNEGATE'), '-(a)', '-(keep)'), (('RECURSIVE', 'EXTMATCH', 'MINUSNEGATE'), '!(a)', '*|-(keep)'),
+    (('RECURSIVE', 'MINUSNEGATE'), '-(a)', '-(keep)'), (('RECURSIVE', 'EXTMATCH'), '!(a)|*b', '!(keep)'), (('RECURSIVE',), '!(a)', '!(keep)'),
+    (('RECURSIVE', 'RAWCHARS'), '\\x61|\\N{LATIN SMALL LETTER B}', '\\x73kipme'), (('RECURSIVE',), '!', '!'),
+    (('RECURSIVE',), '|', '|'), (('RECURSIVE', 'BRACE'), '{a,b}{a,b}|{a,b}', ''),
+]
+
+
 def run(ck: Check) -> int:
     common.import_wcmatch()
     from wcmatch import wcmatch as WM
@@ -68,11 +97,14 @@ def run(ck: Check) -> int:
     R = common.rng('C14')
     drv = common.Driver() if ck.driver_ok else None
     shared: dict = {'cases': []}
+    fixed_roots: set = set()
 
     def each_case():
         """generate (Case) objects; trees live only while the generator is advanced"""
         for tt, cfgs in _cases(ck, R, WM):
             with tt as root:
+                if tt.spec is not None:
+                    fixed_roots.add(root)
                 cyc = K.is_cyclic(root)
                 if isinstance(cfgs, int):
                     cfgs = [(K.gen_flags(R, WM, cyc), K.gen_pat(R, K.FILE_BODIES), K.gen_pat(R, K.DIR_BODIES, 0.3))
@@ -85,9 +117,37 @@ def run(ck: Check) -> int:
                     except K.Cyclic:
                         continue
 
+    def wild_cases(root, cyc, n, fixed):
+        """pattern-only cases on the tree at `root`"""
+        todo = []
+        if fixed:
+            for names, fp, xp in FIXED_WILD:
+                fl = 0
+                for nm in names:
+                    fl |= getattr(WM, nm)
+                for isb in (False, True):
+                    todo.append((fl, K.RawPat(fp), K.RawPat(xp), isb, None))
+            for fp, xp, lim in (('a|b|c', '', 2), ('a|b|c', '', 3), ('a', 'a|b|c', 2), ('a|a|a', '', 2), ('{a,b,c}', 'x|y', 2)):
+                todo.append((WM.RECURSIVE | WM.BRACE, K.RawPat(fp), K.RawPat(xp), False, lim))
+        for _ in range(n):
+            todo.append((K.gen_flags_wild(R, WM, cyc), K.gen_wild(R), K.gen_wild(R, 0.3), R.random() < 0.25, R.choice(WILD_LIMITS)))
+        for fl, fp, xp, isb, lim in todo:
+            if cyc:
+                fl &= ~WM.SYMLINKS
+            try:
+                yield K.Case(root, fl, fp, xp, with_tables=False, isb=isb, limit=lim)
+            except K.Cyclic:
+                continue
+
     # one pass over the generated trees feeds both the stream and the search
     stream_rows: list = []
     search_rows: list = []
+    pat_rows: list = []          # K7-patterns: (description, `wcwalkp` line, real event sequence)
+    pat_spec_rows: list = []     # K7-patterns: (description, `wcspecp` line, plain WcMatch results in the spec format)
+    phist: dict = {}
+    pseen = set()
+    wild_n = WILD_PER_TREE_QUICK if (ck.tier == 'quick' and not ck.deep()) else WILD_PER_TREE
+    wild_done = set()
     hist: dict = {}
     seen = set()
     for case in each_case():
@@ -105,6 +165,33 @@ def run(ck: Check) -> int:
         except Exception as e:  # noqa: BLE001
             real = f'EXC {type(e).__name__}: {e}'
         stream_rows.append((case.describe(), case.model_line(sc, '0'), real))
+        # ---- K7-patterns: the same case, the patterns compiled INSIDE the model
+        pat_rows.append((case.describe(), case.model_line_p(sc, '0'), real))
+        pseen.add(key)
+        if case.root not in wild_done:
+            # … and pattern-only cases on the same tree (no oracle: wilder patterns, bytes root, limit=)
+            wild_done.add(case.root)
+            for wc in wild_cases(case.root, K.is_cyclic(case.root), wild_n, fixed=case.root in fixed_roots):
+                wsc = wc.new_script(oracle=K.oracle_fn('0'))
+                try:
+                    wreal = wc.real_run_p(wsc)
+                except common.CallTimeout:
+                    phist['timeout'] = phist.get('timeout', 0) + 1
+                    continue
+                except Exception as e:  # noqa: BLE001
+                    wreal = f'EXC {type(e).__name__}: {e}'
+                pat_rows.append((wc.describe(), wc.model_line_p(wsc, '0'), wreal))
+                pseen.add((wc.tree_s, wc.flags, wc.fpat.text(False), wc.xpat.text(False), wc.isb, wc.limit))
+                for nm in K.flag_names(WM, wc.flags):
+                    phist[nm] = phist.get(nm, 0) + 1
+                for tag, cond in (('bytes-root', wc.isb), ('limit-given', wc.limit is not None), ('error-reply', wreal.startswith('err ')),
+                                  ('empty-file-pattern', not wc.fpat.alts), ('empty-exclude-pattern', not wc.xpat.alts),
+                                  ('alternatives', '|' in wc.fpat.text(False) + wc.xpat.text(False)),
+                                  ('anchored-alternative', any(a.lstrip('!-').startswith('/') for a in
+                                                               (wc.fpat.text(False) + '|' + wc.xpat.text(False)).split('|'))),
+                                  ('some-yield', ' Ym' in wreal)):
+                    if cond:
+                        phist[tag] = phist.get(tag, 0) + 1
         # ---- search: plain WcMatch vs the specification
         fpt, xpt = case.fpat.text(case.minus), case.xpat.text(case.minus)
         try:
@@ -133,6 +220,8 @@ def run(ck: Check) -> int:
         dex = (lambda rel, n: False) if not case.xpat.alts else (lambda rel, n: dec.excl(case.xpat, dpn, rel, n))
         exp, visited = K.spec_walk(case.root, WM, case.flags, fsel, dex)
         search_rows.append((case.describe(), case.spec_line(), got_rel, skipped, got_i == got, exp, visited, rerun))
+        pat_spec_rows.append((case.describe(), case.spec_line_p(),
+                              ' '.join([common.enc(p) for p in got_rel] + [f'K{skipped}', f'N{len(got_rel) + skipped}'])))
         if len(got_rel) > 0:
             hist['nonempty-result'] = hist.get('nonempty-result', 0) + 1
         if skipped > 0:
@@ -154,6 +243,30 @@ def run(ck: Check) -> int:
         sr.histogram = dict(hist)
         sr.samples = [d for d, _m, _r in stream_rows[:3]]
     ck.stream('K7-wcwalk-uninterrupted', s_k7)
+
+    def s_k7p(sr):
+        sr.note = ('K7-patterns: the recording subclass of WcMatch vs Lean `run` with `Cfg.ofPatterns` (Model/WcCompile.lean: '
+                   '_parse_flags, _compile_wildcard, _compile, compile_pattern, WcRegexp.match, the arguments of compare_file / '
+                   'compare_directory) — the two pattern STRINGS go to the model (`wcwalkp`), no decision table, no oracle.  (a) every '
+                   'case of K7-wcwalk-uninterrupted again; (b) pattern-only cases: |-alternatives with !/-// prefixes in any '
+                   'combination, braces (expansion supplied from bracex), RAWCHARS spellings, flag bits outside FLAG_MASK, bytes '
+                   'root + bytes patterns, limit= (PatternLimitException / SyntaxError / KeyError as `err <kind>`); compared: the '
+                   'complete event sequence and get_skipped().  (c) `wcspecp`: plain WcMatch(...).match() / get_skipped() vs '
+                   'the Lean specification `specResults` / `specSkipped` of the compiled configuration')
+        replies = drv.ask_many([m for _d, m, _r in pat_rows])
+        for (desc, mline, real), model in zip(pat_rows, replies):
+            sr.evaluations += 1
+            if real != model:
+                sr.disagree({'case': desc, 'real': real, 'model': model, 'model_line': mline})
+        replies = drv.ask_many([m for _d, m, _r in pat_spec_rows])
+        for (desc, mline, real), model in zip(pat_spec_rows, replies):
+            sr.evaluations += 1
+            if real != model:
+                sr.disagree({'case': desc, 'real(match)': real, 'model(spec)': model, 'model_line': mline})
+        sr.distinct = len(pseen)
+        sr.histogram = dict(phist)
+        sr.samples = [d for d, _m, _r in pat_rows[:2]] + [d for d, _m, r in pat_rows if d.get('bytes')][:1]
+    ck.stream('K7-patterns', s_k7p)
 
     def s_spec(sr):
         sr.note = ('WcMatch(...).match() / imatch() / get_skipped() (unmodified class) vs the filtered walk computed '
@@ -194,6 +307,8 @@ def run(ck: Check) -> int:
         'pattern decisions are parameters of the walk model; they are supplied from fnmatch.fnmatch / glob.globmatch '
         '(per-alternative combination only for patterns with a leading-/ anchor)',
         'util.is_hidden on this host = leading dot',
+        'K7-patterns: bracex.iexpand (under BRACE) and unicodedata.lookup (under RAWCHARS) are parameters of the model; their '
+        'values are supplied from the real functions; the host is POSIX (os.sep = "/", no _FORCEWIN)',
     ])
 
 
